@@ -187,6 +187,16 @@ PROPS["C05"] = {
     "design_ref": "DESIGN.md section 5 C05",
 }
 
+PROPS["C12"] = {
+    "world": "ring", "level": "exploration", "quick_s": 25, "thorough_s": 600,
+    "rule": "one evaluation = one ring history (2..8 lifecyclers joining, leaving, toggling read-only; up to 8 operator-written instances with truthful registration / read-only times; 1..4 zones, zone-awareness on/off; clock advances up to 9 minutes) observed by fresh cache-less clients at every ring version: for 3 identifiers x sizes {0,1,2,3,4,6,n,n+2}: same content => same shard; size = request rounded up to a multiple of the zones, even per zone, fewer only where a zone lacks eligible instances; no read-only member; shard(size) within shard(size+zones); single-instance registration / removal changes a shard by at most one instance; every shard is recorded with its virtual time and ShuffleShardWithLookback (windows 30 s, 2 min, 10 min) must contain every still-registered instance recorded inside the window; (the PART world scenario covers the partition ring); non-trivial = a look-back query whose window contains a membership or read-only change; distinct = distinct released-task/action sequence hash among non-trivial runs",
+    "real": _RING_CLIENT_REAL, "stub": _RING_STUB + ["fresh ring clients read the observed descriptor from a static kv.Client"],
+    "assumptions": _ASSUME_COMMON + ["look-back histories are restricted to what the ring can know, as the statement says: registrations and read-only switches carry correct timestamps, a registered instance does not change its tokens inside the window", "eligible instances of a zone: between 'not read-only with tokens' and 'not read-only' (the statement does not say whether token-less instances count)"],
+    "level_text": "seeded exploration of membership histories with per-version shard oracles and a history oracle for look-back; sampling, not proof",
+    "level_note": "trusted: simulator engine; shard shape arithmetic written from the statement",
+    "design_ref": "DESIGN.md section 5 C12",
+}
+
 HOOK_COMMITS = []
 
 _PENDING = "claimed in DESIGN.md; check not yet registered (implementation in progress)"
